@@ -475,6 +475,7 @@ fn step(rest: &str) -> String {
         ("pat", 1) => op_pat(&unhex(args[0])),
         ("pmt", 1) => op_pmt(&unhex(args[0])),
         ("desc", 1) => op_desc(&unhex(args[0])),
+        ("descfb", 1) => op_descfb(&unhex(args[0])),
         ("sec", n) if n >= 1 => {
             let pk: Vec<Vec<u8>> = args[1..].iter().map(|h| unhex(h)).collect();
             op_sec(args[0], &pk)
